@@ -27,3 +27,29 @@ Definition backref_to_position (p : pattern) : bool :=
   existsb (fun it => match it with
                      | IBackref n => negb (existsb (Z.eqb n) closed)
                      | _ => false end) (p_items p).
+
+(* ---------------------------------------------------------------- well-formedness
+   of a compiled item list (hypothesis of Full.machine_equiv_spec; the oracle
+   evaluates it on every pattern the builder accepts):
+   capture indices are in 0..9, a capture index is opened once, a
+   back-reference names a capture opened before it and not closed after it. *)
+Definition is_start (n : Z) (it : item) : bool := match it with ICapStart m => m =? n | _ => false end.
+Definition is_end (n : Z) (it : item) : bool := match it with ICapEnd m => m =? n | _ => false end.
+Definition has_start (n : Z) (l : list item) : bool := existsb (is_start n) l.
+Definition has_end (n : Z) (l : list item) : bool := existsb (is_end n) l.
+Definition idx_ok (n : Z) : bool := (0 <=? n) && (n <? 10).
+Definition check_item (it : item) (pre suf : list item) : bool :=
+  match it with
+  | ICapStart n => idx_ok n && negb (has_start n pre)
+  | ICapEnd n => idx_ok n
+  | IBackref n => idx_ok n && has_start n pre && negb (has_end n suf)
+  | _ => true
+  end.
+Fixpoint wfb (pre l : list item) : bool :=
+  match l with
+  | [] => true
+  | it :: suf => check_item it pre suf && wfb (pre ++ [it]) suf
+  end.
+Definition wf_pattern (p : pattern) : bool :=
+  wfb [] (p_items p) &&
+  forallb (fun k => has_start (Z.of_nat k) (p_items p)) (seq 1 (Z.to_nat (p_ncap p))).
